@@ -1,10 +1,12 @@
 """C20 — integer math helpers equal their mathematical definition on the whole domain;
 fall-backs agree with the intrinsics; Aggregate + / += equals one Aggregate fed with all values."""
+import os
 import random
 import re
+import time
 from fractions import Fraction
 
-from vlib import flow
+from vlib import core, flow
 
 TYPES = {"u8": (8, False), "i8": (8, True), "u16": (16, False), "i16": (16, True),
          "u32": (32, False), "i32": (32, True), "u64": (64, False), "i64": (64, True)}
@@ -93,6 +95,52 @@ class C20(flow.Spec):
 
     def __init__(self):
         self.evals = 0
+        self.full32 = {}
+
+    # Exhaustive 32-bit stage (thorough tier): every value of every single-argument 32-bit overload /
+    # template on the real code against the definition oracle.  Harness-only (`x` lines; the Lean
+    # model takes part in the dense sweeps of the correspondence instead), built -O2 with UBSan
+    # because 2^32 evaluations per function are too slow under ASan.  Time-boxed: the functions are
+    # visited in a seed-rotated order and the ones reached are recorded in the evidence.
+    def translator(self, ctx):
+        if ctx.quick():
+            return []
+        hb, log = core.build_harness(ctx, name="c20fast", sources=["c20.cpp"],
+                                     std_flags=["-std=gnu++17", "-O2", "-g", "-fsanitize=undefined",
+                                                "-fno-sanitize-recover=all"])
+        if hb is None:
+            return ["fast harness does not compile: " + log[-800:]]
+        M = (1 << 32) - 1
+        jobs = [(fn, ty) for fn in ONE for ty in ("u32", "i32") if exists(fn, ty)]
+        k = ctx.seed % len(jobs)
+        jobs = jobs[k:] + jobs[:k]
+        budget = float(os.environ.get("VERIF_C20_FULL32_BUDGET", "600"))
+        t0 = time.time()
+        done, nviol = [], 0
+        for fn, ty in jobs:
+            if time.time() - t0 > budget:
+                break
+            lines = [f"case full32 {fn} {ty}", f"x {fn} {ty} 0 {M}"]
+            out, rc, err = core.run_lines([hb, "run"], lines, timeout=3000)
+            viol = [l for l in out if l.startswith("#VIOL")]
+            if rc != 0 and not viol:
+                viol = [core.crash_message(rc, err)]
+            if viol:
+                nviol += 1
+                if nviol <= 3:
+                    w = re.search(r"witness: (.*)$", viol[0])
+                    body = [lines[0]] + ([w.group(1)] if w else []) + [lines[1]]
+                    name = f"viol_{ctx.tier}_{ctx.seed}_full32_{fn}_{ty}.ops"
+                    p = ctx.write_replay(name, ["kind: property violated on the real code (exhaustive 32-bit sweep)",
+                                                "message: " + viol[0],
+                                                f"replay: python3 check.py C20 --replay replays/C20/{name}"], body)
+                    ctx.violation(p, "exhaustive 32-bit sweep: " + viol[0][:200], True)
+            else:
+                done.append(f"{fn}/{ty}")
+        self.full32 = dict(swept_all_2_32_values=done, seconds=round(time.time() - t0, 1),
+                           of=len(jobs), violations=nviol)
+        ctx.say(f"exhaustive 32-bit stage: {len(done)}/{len(jobs)} (function, type) pairs swept in {time.time()-t0:.0f}s, {nviol} with violations")
+        return []
 
     def viol_class(self, message):
         m = message.split(" witness:")[0].split(", after")[0]
@@ -223,12 +271,6 @@ class C20(flow.Spec):
                 else:
                     pairs = [(a, b) for a in S2 for b in S2]
                 case(f"struct64 {fn} {ty}", ["v2 %s %s %s" % (fn, ty, " ".join(f"{a} {b}" for a, b in ch)) for ch in chunks(pairs, 24)])
-        # thorough, first round only: exhaustive 32-bit sweeps on the real code (harness-only; 4 threads)
-        if not quick and round_no == 0:
-            for ty in ("u32", "i32"):
-                for fn in ONE:
-                    if exists(fn, ty):
-                        case(f"full32 {fn} {ty}", [f"x {fn} {ty} 0 {M}"])
         return cs
 
     def agg_case(self, rng, cid, nops):
@@ -328,7 +370,8 @@ class C20(flow.Spec):
         return (name, tuple(case[1:3])) if (top and executed) else None
 
     def extra_coverage(self, ctx, res):
-        return {"integer_function_evaluations": self.evals}
+        return {"integer_function_evaluations": self.evals,
+                "exhaustive_32bit_stage": self.full32 or "thorough tier only"}
 
 
 SPEC = C20()
